@@ -5,8 +5,10 @@ id=$1; tier=${2:-quick}; M=${MUTDIR:-/tmp/mut}; L=${MUTLOG:-/tmp/main/mut}; wt=$
 cd $wt || exit 2
 head=$(git -C /repo rev-parse HEAD)
 if [ "$(git rev-parse HEAD)" != "$head" ]; then
+  # no git stash here: the stash is shared by all worktrees of a repository, and lanes run in parallel
   git diff -- . ':(exclude)*_test.go' > $M/$id.srcpatch
-  git stash -q -u && git checkout -q --detach $head && git stash pop -q || { echo "REBASE FAILED"; exit 3; }
+  git checkout -q -- . && git checkout -q --detach $head && git apply --3way $M/$id.srcpatch || { echo "REBASE FAILED"; exit 3; }
+  git reset -q
 fi
 cd /verif && VERIF_HARNESS_CMD=dev_$(echo $id | tr A-Z a-z) VERIF_REPO=$wt timeout 3000 ./check $id --tier $tier > $L/check-$id.log 2>&1
 echo "exit=$?" >> $L/check-$id.log
